@@ -48,9 +48,66 @@ func runC19(a *A) {
 		dc := a.FieldOf(S(), "dataChan")
 		L := a.Locks()
 		key := lockKey{"stream.Stream", "dataChanMux"}
-		noExpand := map[string]string{
-			"(*stream.BlockingStrategy).ProcessData": "block strategy never expands the buffer",
-			"(*stream.DropStrategy).ProcessData":     "drop strategy never expands the buffer",
+		exp := a.Method("stream", "Stream", "expandDataChannel")
+		// the strategies (implementations of DataProcessingStrategy) and, for each, whether any of its methods can
+		// reach expandDataChannel. A strategy that cannot never coexists with a swap: a stream has one strategy.
+		iface := a.Iface("stream", "DataProcessingStrategy")
+		stratOf := func(fn *ssa.Function) *types.Named {
+			for fn.Parent() != nil {
+				fn = fn.Parent()
+			}
+			if fn.Signature.Recv() == nil {
+				return nil
+			}
+			nt, _ := derefT(fn.Signature.Recv().Type()).(*types.Named)
+			if nt == nil || !typesImplements(nt, iface) {
+				return nil
+			}
+			return nt
+		}
+		methods := map[*types.Named][]*ssa.Function{}
+		for _, fn := range a.ModFuncs {
+			if fn.Parent() == nil {
+				if nt := stratOf(fn); nt != nil {
+					methods[nt] = append(methods[nt], fn)
+				}
+			}
+		}
+		expands := map[*types.Named]bool{}
+		for nt, ms := range methods {
+			expands[nt] = a.ReachFrom(ms)[exp]
+		}
+		// cachedSendOK: fn belongs to a strategy that never expands, and is used by that strategy only
+		cachedSendOK := func(fn *ssa.Function) (string, bool) {
+			nt := stratOf(fn)
+			if nt == nil {
+				return "", false
+			}
+			if expands[nt] {
+				return "", false
+			}
+			root := fn
+			for root.Parent() != nil {
+				root = root.Parent()
+			}
+			for _, g := range a.ModFuncs {
+				if len(callsTo(g, root)) > 0 && stratOf(g) != nt {
+					return "", false
+				}
+				foreign := false
+				allInstrs(g, func(in ssa.Instruction) {
+					var ops [16]*ssa.Value
+					for _, op := range in.Operands(ops[:0]) {
+						if *op == ssa.Value(root) && stratOf(g) != nt {
+							foreign = true
+						}
+					}
+				})
+				if foreign {
+					return "", false
+				}
+			}
+			return nt.Obj().Name() + " never expands the buffer (none of its methods reaches expandDataChannel)", true
 		}
 		n := 0
 		for _, fn := range a.ModFuncs {
@@ -78,7 +135,7 @@ func runC19(a *A) {
 						_, ok := held[key]
 						a.Check(ok, construct, in.Pos(), "sends on the input buffer while holding dataChanMux (an expansion cannot swap the channel under the send)", fmt.Sprintf("sends on Stream.dataChan without holding dataChanMux (lockset %s): an expansion can swap the channel and strand the row on the orphaned one", held))
 					} else {
-						why, ok := noExpand[fname(fn)]
+						why, ok := cachedSendOK(fn)
 						if ok {
 							a.Ok(construct, in.Pos(), "send on a cached reference: %s", why)
 						} else {
@@ -92,10 +149,9 @@ func runC19(a *A) {
 			a.Und("send(dataChan)", token.NoPos, "no send on Stream.dataChan found")
 		}
 		// expandDataChannel is called only by the expand strategy
-		exp := a.Method("stream", "Stream", "expandDataChannel")
 		for _, fn := range a.ModFuncs {
 			for _, c := range callsTo(fn, exp) {
-				a.Check(fname(fn) == "(*stream.ExpansionStrategy).ProcessData", "call(expandDataChannel)@"+fname(fn), c.Pos(), "only the expand strategy grows the buffer", fname(fn)+" calls expandDataChannel: the strategies that send on a cached channel reference would coexist with a swap")
+				a.Check(stratOf(fn) != nil, "call(expandDataChannel)@"+fname(fn), c.Pos(), "only a strategy grows the buffer (and a strategy that does makes no send on a cached channel reference)", fname(fn)+" calls expandDataChannel and is not part of a strategy: the strategies that send on a cached channel reference would coexist with a swap")
 			}
 		}
 	})
@@ -329,10 +385,55 @@ func runC19(a *A) {
 				}
 				return true
 			}
+			// flagExit: the exit is taken on a boolean loop variable (`for going := true; going; { … going = false }`)
+			// and every assignment of the value that leaves the loop is made after the attempt to receive.
+			flagExit := func(b *ssa.BasicBlock, sc *ssa.BasicBlock) bool {
+				iff, ok := b.Instrs[len(b.Instrs)-1].(*ssa.If)
+				if !ok {
+					return false
+				}
+				want := b.Succs[0] == sc
+				cond := iff.Cond
+				if u, ok := cond.(*ssa.UnOp); ok && u.Op == token.NOT {
+					cond, want = u.X, !want
+				}
+				phi, ok := cond.(*ssa.Phi)
+				if !ok {
+					return false
+				}
+				seen := map[*ssa.Phi]bool{}
+				var walk func(p *ssa.Phi) bool
+				walk = func(p *ssa.Phi) bool {
+					if seen[p] {
+						return true
+					}
+					seen[p] = true
+					for i, e := range p.Edges {
+						pred := p.Block().Preds[i]
+						switch x := e.(type) {
+						case *ssa.Const:
+							if x.Value == nil || constant.BoolVal(x.Value) != want {
+								continue
+							}
+							if !lp.Blocks[pred] || !(drainSel.Block() == pred || drainSel.Block().Dominates(pred)) {
+								return false
+							}
+						case *ssa.Phi:
+							if !walk(x) {
+								return false
+							}
+						default:
+							return false
+						}
+					}
+					return true
+				}
+				return walk(phi)
+			}
 			var bad *ssa.BasicBlock
 			for b := range lp.Blocks {
 				for _, sc := range b.Succs {
-					if !lp.Blocks[sc] && !(drainSel.Block() == b || drainSel.Block().Dominates(b)) && !newChannelFull(b, sc) {
+					if !lp.Blocks[sc] && !(drainSel.Block() == b || drainSel.Block().Dominates(b)) && !newChannelFull(b, sc) && !flagExit(b, sc) {
 						bad = b
 					}
 				}
@@ -467,21 +568,28 @@ func (a *A) ruleStrategyOutcome(fn *ssa.Function, checkNoDropWithoutTimeout bool
 	// helpers of package stream that enqueue, count or observe Stop on the strategy's behalf are
 	// summarised by the same walk: one continuation per (events, boolean results) they can end with
 	var walkOutcomes func(f *ssa.Function, mode string) []Outcome
-	sumMemo := map[*ssa.Function][]CallSummary{}
+	// curMode: the assumption of the walk in progress holds inside the helpers too (a helper that reads
+	// blockingTimeout is summarised under `blockingTimeout <= 0` when the caller is)
+	curMode := "any"
+	type sumKey struct {
+		f    *ssa.Function
+		mode string
+	}
+	sumMemo := map[sumKey][]CallSummary{}
 	sumBusy := map[*ssa.Function]bool{}
 	summarise := func(c *ssa.Call) []CallSummary {
 		f := c.Call.StaticCallee()
 		if f == nil || f.Blocks == nil || f.Pkg != fn.Pkg || sumBusy[f] {
 			return nil
 		}
-		if v, ok := sumMemo[f]; ok {
+		if v, ok := sumMemo[sumKey{f, curMode}]; ok {
 			return v
 		}
 		sumBusy[f] = true
 		var out []CallSummary
 		seen := map[string]bool{}
 		any := false
-		for _, o := range walkOutcomes(f, "any") {
+		for _, o := range walkOutcomes(f, curMode) {
 			if o.Ended == "overflow" {
 				out, any = nil, false
 				break
@@ -506,7 +614,7 @@ func (a *A) ruleStrategyOutcome(fn *ssa.Function, checkNoDropWithoutTimeout bool
 		if !any {
 			out = nil // no event inside: an ordinary call
 		}
-		sumMemo[f] = out
+		sumMemo[sumKey{f, curMode}] = out
 		return out
 	}
 	// a helper that is not handed the row cannot enqueue or count THIS row: what it sends or counts
@@ -641,6 +749,7 @@ func (a *A) ruleStrategyOutcome(fn *ssa.Function, checkNoDropWithoutTimeout bool
 		if mode == "no-timeout" && !checkNoDropWithoutTimeout {
 			continue
 		}
+		curMode = mode
 		outs := walkOutcomes(fn, mode)
 		seen := map[string]bool{}
 		bad := ""
